@@ -338,6 +338,11 @@ fn mutate(rng: &mut Rng, f: &[u8]) -> (Vec<u8>, String) {
 }
 
 pub fn run(opts: &Opts) -> Run {
+    run_inputs(opts, None)
+}
+
+/// `only`: run the per-input oracles on exactly these inputs (replay) instead of generating
+pub fn run_inputs(opts: &Opts, only: Option<Vec<Vec<u8>>>) -> Run {
     let mut run = Run::new("hostile");
     let mut rng = Rng::new(opts.seed ^ 0x4057);
     let probe = {
@@ -362,20 +367,24 @@ pub fn run(opts: &Opts) -> Run {
         }
     }
     run.stat("corpus_inputs", inputs.len() as u64);
-    let n_synth = if opts.thorough { 4000 } else { 160 };
+    let replaying = only.is_some();
+    if let Some(list) = only {
+        inputs = list.into_iter().map(|b| (b, "replay".to_string(), None)).collect();
+    }
+    let n_synth = if replaying { 0 } else if opts.thorough { 4000 } else { 160 };
     for _ in 0..n_synth {
         let (f, label) = synth::valid_frame(&mut rng);
         let (bytes, expected) = synth::serialize(&f, &[]);
         inputs.push((bytes, format!("synthetic: {}", label), expected));
         run.stat("synthetic_valid", 1);
     }
-    let n_host = if opts.thorough { 6000 } else { 240 };
+    let n_host = if replaying { 0 } else if opts.thorough { 6000 } else { 240 };
     for _ in 0..n_host {
         let (bytes, label) = synth::hostile_frame(&mut rng);
         inputs.push((bytes, format!("hostile: {}", label), None));
         run.stat("hostile_structured", 1);
     }
-    let n_mut = if opts.thorough { 8000 } else { 300 };
+    let n_mut = if replaying { 0 } else if opts.thorough { 8000 } else { 300 };
     let mut bases: Vec<Vec<u8>> = Vec::new();
     for i in 0..12 {
         let kind = gen::DATA_KINDS[i % gen::DATA_KINDS.len()];
@@ -389,7 +398,7 @@ pub fn run(opts: &Opts) -> Run {
         inputs.push((m, format!("mutated libzstd frame: {}", label), None));
         run.stat("mutated", 1);
     }
-    for _ in 0..(if opts.thorough { 2000 } else { 100 }) {
+    for _ in 0..(if replaying { 0 } else if opts.thorough { 2000 } else { 100 }) {
         let mut v = vec![0x28, 0xB5, 0x2F, 0xFD];
         let n_ = rng.range(0, 60) as usize;
         v.extend_from_slice(&rng.bytes(n_));
@@ -517,7 +526,7 @@ pub fn run(opts: &Opts) -> Run {
         let sig = outs.iter().map(|o| o.err.clone().unwrap_or_else(|| "ok".into()).split(' ').take(2).collect::<Vec<_>>().join("_")).collect::<Vec<_>>().join("|");
         run.stat(&format!("outcome:{}", sig.chars().take(60).collect::<String>()), 1);
     }
-    if aborted {
+    if aborted || replaying {
         return run;
     }
     // hostile dictionaries: parsing must not panic; decoding with a parsed hostile dictionary must not panic
